@@ -22,12 +22,15 @@
       results[255 - i] ↔ randrsl[i],   index ↔ RANDSIZ - randcnt.
 
   All theorems are for every seed byte string (the defaults of `le32At`/`le64At` are not
-  reached when the seed has its 32 bytes, which is the only length Rust admits); all
+  reached when the seed has its 32 bytes, the only length the Rust type `[u8; 32]` has); all
   `2^256` seeds and all stream positions `k : Nat` are covered.  Nothing is partial.
 -/
 import Rngs.Lib.IsaacRefine
 import Rngs.Lib.IsaacRefineInit
 import Rngs.Lib.IsaacRefineStream
+import Rngs.Lib.IsaacRefineBlocks
+import Rngs.Lib.IsaacAnchor32
+import Rngs.Lib.IsaacAnchor64
 namespace Rngs.C03
 open Rngs Rngs.Isaac Rngs.Spec Rngs.IsaacRefine
 
@@ -230,6 +233,44 @@ theorem seedFromU64_64_zero_stream (rsl0 mem0 : Vec 64) (k : Nat) :
   rw [stream_view _ _ view64 nextU64_view k _, view64_new, seedFromU64Core64_zero]
   exact fresh_stream match64 false _ k
 
+/-! ### the same, with the reference order spelled out
+
+`rand()` number `k` after `randinit` is entry `255 - k mod 256` of the `randrsl` produced by
+`k / 256` further `isaac()` calls (`IsaacRefine.rand_closed`): every 256-word block is handed
+out from `randrsl[255]` down to `randrsl[0]`. -/
+
+theorem fromSeed32_blocks (seed : List U8) (mem0 : Vec 32) (k : Nat) :
+    nextU32s (fromSeed32 seed) k
+      = (iter (Jenkins.isaac Jenkins.isaac32) (k / 256)
+          (Jenkins.seeded Jenkins.isaac32 (seedWords32 seed) mem0)).randrsl[255 - k % 256]'(by
+            show _ < 256; omega) := by
+  rw [fromSeed32_stream seed mem0 k]
+  exact rand_closed _ _ rfl k
+
+theorem fromSeed64_blocks (seed : List U8) (mem0 : Vec 64) (k : Nat) :
+    nextU64s (fromSeed64 seed) k
+      = (iter (Jenkins.isaac Jenkins.isaac64) (k / 256)
+          (Jenkins.seeded Jenkins.isaac64 (seedWords64 seed) mem0)).randrsl[255 - k % 256]'(by
+            show _ < 256; omega) := by
+  rw [fromSeed64_stream seed mem0 k]
+  exact rand_closed _ _ rfl k
+
+theorem seedFromU64_32_zero_blocks (rsl0 mem0 : Vec 32) (k : Nat) :
+    nextU32s (seedFromU64_32 0) k
+      = (iter (Jenkins.isaac Jenkins.isaac32) (k / 256)
+          (Jenkins.unseeded Jenkins.isaac32 rsl0 mem0)).randrsl[255 - k % 256]'(by
+            show _ < 256; omega) := by
+  rw [seedFromU64_32_zero_stream rsl0 mem0 k]
+  exact rand_closed _ _ rfl k
+
+theorem seedFromU64_64_zero_blocks (rsl0 mem0 : Vec 64) (k : Nat) :
+    nextU64s (seedFromU64_64 0) k
+      = (iter (Jenkins.isaac Jenkins.isaac64) (k / 256)
+          (Jenkins.unseeded Jenkins.isaac64 rsl0 mem0)).randrsl[255 - k % 256]'(by
+            show _ < 256; omega) := by
+  rw [seedFromU64_64_zero_stream rsl0 mem0 k]
+  exact rand_closed _ _ rfl k
+
 /-! ## 5. anchors -/
 
 /-- `Sync` is satisfiable: after its first `next_u32` a fresh `IsaacRng` is in sync with the
@@ -243,17 +284,36 @@ example (seed : List U8) :
   rw [view32_new, fromSeedCore32_eq seed Jenkins.zeros]
   exact (fresh_next match32 true _).2
 
-/-- The specification itself, evaluated by the kernel, gives the published first outputs of
-    unseeded ISAAC (rand_isaac's `test_isaac_new_uninitialized`: 0x71D71FD2, 0xB54ADAE7,
-    0xD4788559, 0xC36129FA, …). -/
+/-- The specification itself, evaluated by the kernel (`Rngs.Lib.IsaacAnchor32/64`), gives the
+    published first outputs of unseeded ISAAC (rand_isaac's `test_isaac_new_uninitialized`) … -/
 example :
     (List.range 4).map (Jenkins.rand Jenkins.isaac32
         (Jenkins.unseeded Jenkins.isaac32 Jenkins.zeros Jenkins.zeros))
-      = [0x71D71FD2#32, 0xB54ADAE7#32, 0xD4788559#32, 0xC36129FA#32] := by decide +kernel
+      = [0x71D71FD2#32, 0xB54ADAE7#32, 0xD4788559#32, 0xC36129FA#32] :=
+  IsaacAnchor.unseeded32_first4
 
-/-- … hence so does the model of `IsaacRng::seed_from_u64(0)`. -/
-example : nextU32s (seedFromU64_32 0) 0 = 0x71D71FD2#32 := by
-  rw [seedFromU64_32_zero_stream Jenkins.zeros Jenkins.zeros 0]
-  decide +kernel
+/-- … hence so does the model of `IsaacRng::seed_from_u64(0)` … -/
+example : (List.range 4).map (nextU32s (seedFromU64_32 0))
+    = [0x71D71FD2#32, 0xB54ADAE7#32, 0xD4788559#32, 0xC36129FA#32] := by
+  rw [← IsaacAnchor.unseeded32_first4]
+  exact List.map_congr_left (fun k _ => seedFromU64_32_zero_stream Jenkins.zeros Jenkins.zeros k)
+
+/-- … and of `Isaac64Rng::seed_from_u64(0)` (`test_isaac64_new_uninitialized`). -/
+example : (List.range 2).map (nextU64s (seedFromU64_64 0))
+    = [0xF67DFBA498E4937C#64, 0x84A5066A9204F380#64] := by
+  rw [← IsaacAnchor.unseeded64_first2]
+  exact List.map_congr_left (fun k _ => seedFromU64_64_zero_stream Jenkins.zeros Jenkins.zeros k)
+
+/-- Seeded: first value of rand_isaac's `test_isaac_true_values_32` … -/
+example : nextU32s (fromSeed32 [1, 0, 0, 0, 23, 0, 0, 0, 200, 1, 0, 0, 210, 30, 0, 0,
+    57, 48, 0, 0, 0, 0, 0, 0, 0, 0, 0, 0, 0, 0, 0, 0]) 0 = 2558573138#32 := by
+  rw [fromSeed32_stream _ Jenkins.zeros 0, ← IsaacAnchor.seeded32_first]
+  congr 2
+
+/-- … and of `test_isaac64_true_values_64`. -/
+example : nextU64s (fromSeed64 [1, 0, 0, 0, 0, 0, 0, 0, 23, 0, 0, 0, 0, 0, 0, 0,
+    200, 1, 0, 0, 0, 0, 0, 0, 210, 30, 0, 0, 0, 0, 0, 0]) 0 = 15071495833797886820#64 := by
+  rw [fromSeed64_stream _ Jenkins.zeros 0, ← IsaacAnchor.seeded64_first]
+  congr 2
 
 end Rngs.C03
